@@ -266,13 +266,13 @@ def run_unit(unit, tier):
         for t, v in scale_cases(n):
             d = T.mk(t)
             r.states += 1
-            b = rt.build(d, v, {})
+            b = rt.build(d, v, {}, timeout=60)
             case = {"scale": [T.show(t)[:60], n]}
             if b[0] != "ok":
                 r.case(nontrivial=True, outcome="build-failed", validated=1)
                 r.violation("C01/build-rejects-domain-value/scale:" + T.sig_of(t), case, "%s.build(<%d units>) -> %r" % (T.show(t), n, b[:2]))
                 continue
-            p = rt.parse(d, b[1], {})
+            p = rt.parse(d, b[1], {}, timeout=60)
             ok = p[0] == "ok" and p[2] == len(b[1]) and matches(T.norm(v) if not isinstance(v, (bytes, str, int)) else v, p[1])
             r.case(nontrivial=True, outcome="ok" if ok else "differs", transitions=2, validated=1)
             if not ok:
